@@ -63,6 +63,43 @@ def worker_init():
         pass
 
 
+MODELLED = {
+    "nemoguardrails/colang/v2_x/runtime/statemachine.py": [
+        "initialize_state", "create_flow_instance", "add_new_flow_instance", "_create_event_reference", "run_to_completion", "_clean_up_state",
+        "_process_internal_events_without_default_matchers", "_get_reference_activated_flow_instance", "_get_all_head_candidates",
+        "_handle_event_matching", "_resolve_action_conflicts", "_advance_head_front", "slide", "_start_flow", "_abort_flow", "_finish_flow",
+        "_flow_head_changed", "_add_head_to_event_matching_structures", "_remove_head_from_event_matching_structures",
+        "_update_action_status_by_event", "_compute_event_matching_score", "get_event_name_from_element", "get_event_from_element",
+        "_generate_action_event_from_actionable_element", "create_umim_event", "_generate_umim_event", "_get_eval_context",
+        "_is_reference_activated_flow", "_is_child_activated_flow", "is_listening_flow", "is_active_flow", "is_inactive_flow", "_is_done_flow"],
+}
+
+
+def translate():
+    """Constants of the matcher (shared with C04: InternalEvents.ALL, the argument filter) are regenerated; the hand-modelled
+    interpreter functions are fingerprinted (a changed fingerprint is recorded in the evidence, it does not fail by itself)."""
+    from ..translate import c04 as tr04
+    from ..translate import util
+
+    info = {"c04": tr04.run()}
+    fps = {}
+    for rel, names in MODELLED.items():
+        tree = util.parse(rel)
+        for n in names:
+            fps[n] = util.fingerprint(util.find_def(tree, n))
+    fl = util.parse("nemoguardrails/colang/v2_x/runtime/flows.py")
+    for cls, names in (("FlowHead", ["position", "status", "get_child_head_uids"]), ("FlowState", ["status", "active_heads", "get_event", "start_event", "finished_event", "_create_out_event"]),
+                       ("Action", ["process_event", "get_event", "from_event"])):
+        c = util.find_def(fl, cls)
+        import ast as _ast
+
+        for node in c.body:
+            if isinstance(node, (_ast.FunctionDef,)) and node.name in names:
+                fps[cls + "." + node.name + ":" + str(node.lineno)] = util.fingerprint(node)
+    info["fingerprints"] = fps
+    return info
+
+
 def static_tie():
     """Facts about the parser output that the guards of the model rely on."""
     cv.install()
@@ -341,6 +378,15 @@ def run_impl(case):
             signal.setitimer(signal.ITIMER_REAL, 0)
         except Exception:  # noqa
             pass
+    # the oracle is evaluated here (in the worker) on the full snapshots; only what the comparisons need travels back
+    obs["findings"] = _compute_findings(obs)
+    keep_full = bool(obs["findings"]) or case.get("keep_snapshots")
+    for st in obs["steps"]:
+        if "snap" in st and not keep_full:
+            sn = st["snap"]
+            st["snap"] = {"index": sn["index"], "rev": sn["rev"],
+                          "insts": [{"uid": i["uid"], "status": i["status"], "heads": [{"uid": h["uid"], "pos": h["pos"], "status": h["status"]} for h in i["heads"]]} for i in sn["insts"]],
+                          "n_insts": len(sn["insts"]), "n_entries": sum(len(ks) for _, ks in sn["index"]), "multi": len(sn["insts"]) >= 2 or any(len(i["heads"]) > 1 for i in sn["insts"])}
     return json.loads(json.dumps(obs, default=str))
 
 
@@ -557,6 +603,12 @@ def check_snapshot(snap):
 
 
 def _findings(case, obs):
+    if "findings" in obs:
+        return [tuple(f) for f in obs["findings"]]
+    return _compute_findings(obs)
+
+
+def _compute_findings(obs):
     out = []
     if "skip" in obs or obs.get("timeout"):
         return out
@@ -594,7 +646,8 @@ def nontrivial(case, obs):
     multi = False
     for st in obs["steps"]:
         if "snap" in st:
-            if len(st["snap"]["insts"]) >= 2 or any(len(i["heads"]) > 1 for i in st["snap"]["insts"]):
+            sn = st["snap"]
+            if sn.get("multi") or len(sn["insts"]) >= 2 or any(len(i["heads"]) > 1 for i in sn["insts"]):
                 multi = True
         if st.get("ops") and st["item"][0] != "start_main" and any(o[0] in ("setPos", "setStatus", "fork", "dropHeads") for o in st["ops"]):
             moved += 1
